@@ -15,8 +15,8 @@ EXPLANATION = ("Gillespie_complex_contagion is executed symbolically with harnes
                "primitive are exactly the reference rates (selection proportional to rate by C16); every callback sees the current "
                "statuses; the node's new status is the chooser's answer; the run stops exactly when all rates vanish (or the event "
                "bound / tmax is reached); the returned counts track the statuses.")
-BOUNDS = {'quick': '4 user models x graphs K2, P3, K3 x representative initial statuses; <=3 events',
-          'thorough': '4 user models x G3 + P4, S3 x all initial statuses with an active node; <=4 events'}
+BOUNDS = {'quick': '4 user models x graphs K2, P3, K3, K2+K1 (isolated node) x representative initial statuses; <=3 events',
+          'thorough': '4 user models x G3 + K2+K1, P4, S3 x all initial statuses with an active node; <=4 events'}
 ASSUMPTIONS = ['floats as reals', 'user functions accept the parameters argument (the code always passes it)', 'influence-set function covers every node whose rate can change (property precondition)',
                'weighted candidate set through its abstraction (C16)', 'rates > 0 symbolic']
 OPTS = {'quick': {'max_validate': 2, 'validate_every': 7, 'cfg_timeout': 200}, 'thorough': {'max_validate': 2, 'validate_every': 97, 'cfg_timeout': 1500}}
@@ -80,7 +80,7 @@ def _ics(model, n, tier):
 def configs(tier):
     out = []
     E = 3 if tier == 'quick' else 4
-    gl = ['K2', 'P3', 'K3'] if tier == 'quick' else list(graphs.G3) + ['P4', 'S3']
+    gl = ['K2', 'P3', 'K3', 'K2+K1'] if tier == 'quick' else list(dict.fromkeys(list(graphs.G3) + ['K2+K1', 'P4', 'S3']))
     for model in MODELS:
         for g in gl:
             n = graphs.ALL[g][0]
